@@ -9,7 +9,10 @@ Inductive case :=
 | CPlan (offset limit : Z) (ok : bool) (steps : list (Z * Z))
 | CCtr (key iv : list Z) (offset : Z) (src got : list Z)
 | CVerify (wins : list (Z * Z * list Z * list Z))      (* offset, limit, hash, what a whole-window fetch returns *)
-          (offset limit : Z) (data : list Z) (ok : bool) (out : list Z).
+          (offset limit : Z) (data : list Z) (ok : bool) (out : list Z)
+| CQueue (pre : list (Z * Z))                           (* hashes given to newVerifier: offset, limit *)
+         (srv : list (Z * list (Z * Z)))                (* what the hash server answered: asked offset, batch *)
+         (served : list (Z * Z)) (finished : bool).     (* windows returned by pop/update in order; queue reported the end *)
 
 Definition z2_eqb (a b : Z * Z) : bool := (fst a =? fst b) && (snd a =? snd b).
 
@@ -35,6 +38,12 @@ Definition check_verify (wins : list (Z * Z * list Z * list Z)) (offset limit : 
   | None => negb ok
   end.
 
+Definition mkw (t : Z * Z) : hwin := {| w_off := fst t; w_limit := snd t; w_hash := [] |}.
+Definition check_queue (pre : list (Z * Z)) (srv : list (Z * list (Z * Z))) (served : list (Z * Z)) (finished : bool) : bool :=
+  let server := fun o => match find (fun e => fst e =? o) srv with Some (_, b) => map mkw b | None => [] end in
+  let '(l, fin) := v_drain server (S (length served)) (new_verifier (map mkw pre)) in
+  list_eqb z2_eqb (map (fun w => (w_off w, w_limit w)) l) served && Bool.eqb fin finished.
+
 Definition ok (c : case) : bool :=
   match c with
   | CPlan offset limit okp steps =>
@@ -45,5 +54,6 @@ Definition ok (c : case) : bool :=
       end
   | CCtr key iv offset src got => check_ctr key iv offset src got
   | CVerify wins offset limit data okv out => check_verify wins offset limit data okv out
+  | CQueue pre srv served finished => check_queue pre srv served finished
   end.
 Definition mismatches (cs : list case) : list nat := mismatch_idx ok cs.
